@@ -101,6 +101,7 @@ func main() {
 			}()
 		}
 	}
+	repoRoot = strings.TrimRight(*repo, "/")
 	start := time.Now()
 	out := &Output{Harness: *harness, Package: *pkgPat, Params: map[string]int64{}, Solver: *solverName, ReverseMap: *revMaps}
 	writeOut := func() {
